@@ -132,9 +132,10 @@ func (l AbstractListSchema[ItemType]) ValidateCompatibility(typeOrData any) erro
 	// Check if it's just a list, if so, validate the individual items.
 	if valueKind == reflect.Slice {
 		// We don't know the type of the list, so just use reflection to get any values.
-		lengthOfSlice := value.Len()
+		sliceValue := reflect.Indirect(value)
+		lengthOfSlice := sliceValue.Len()
 		for i := 0; i < lengthOfSlice; i++ {
-			itemInList := value.Index(i).Interface()
+			itemInList := sliceValue.Index(i).Interface()
 			err := l.ItemsValue.ValidateCompatibility(itemInList)
 			if err != nil {
 				return ConstraintErrorAddPathSegment(err, fmt.Sprintf("[%d]", i))
